@@ -243,7 +243,15 @@ impl<'a, S: Scheme> Sess<'a, S> {
 
         // --- authority
         let mut rng_auth = SimRng::new(scn.seed, "authority", 0).logged(log);
-        let pp = match step(|| PcOf::<S>::setup(cfg.max_degree, cfg.num_vars, &mut rng_auth)) {
+        let alt = if cfg.lincode.is_some() { step(|| Ok::<_, String>(S::alt_setup(cfg, &mut rng_auth))).ok().flatten() } else { None };
+        if alt.is_some() {
+            stats.fire("tuning-knobs");
+        }
+        let pp = match alt {
+            Some(pp) => Outcome::Ok(pp),
+            None => step(|| PcOf::<S>::setup(cfg.max_degree, cfg.num_vars, &mut rng_auth)),
+        };
+        let pp = match pp {
             Outcome::Ok(pp) => pp,
             o => return Err(StartError::Refused("setup", o.describe())),
         };
